@@ -102,23 +102,20 @@ def pushAssoc (d : DS) (t : Nat) : DS :=
 
 /-- `ABT_pool_pop_threads(pool, buf, m, &n)` on a built-in pool (pop_many from the head) or on the legacy pool 4
 (the adapter calls the user's `p_pop` until the buffer is full or the pool reports empty, and translates every unit with the
-runtime's table): returns the threads taken in order and the callback events -/
-def popMany (d : DS) (p : Nat) : Nat → DS × List Nat × String
-  | 0 => (d, [], "")
-  | m + 1 =>
-    let l := d.q.getD p []
-    match l with
-    | [] => (d, [], if isBuiltinPool p then "" else s!" | pop p{p} none")
-    | t :: rest =>
-      let d1 := { d with q := d.q.setIfInBounds p rest }
-      let d2 := setT d1 t { getT d1 t with st := 2 }
-      let ev := match (d.a.thr t).unit with
-        | .user u =>
-          let chk := if p == 4 && unitThread d.a (.user u) != some t then "!lookup-mismatch" else ""
-          s!" | pop p{p} u{slotOf u}" ++ chk
-        | _ => ""
-      let (d3, ts, evs) := popMany d2 p m
-      (d3, t :: ts, ev ++ evs)
+runtime's table): the queue effect and the number of `p_pop` calls are `Model.Assoc.popManyLoop`
+(Props/C14 `batch.pop_many_conserves`, `pop_many_calls`); returns the threads taken in order and the callback events -/
+def popMany (d : DS) (p : Nat) (m : Nat) : DS × List Nat × String :=
+  let (got, left, calls) := popManyLoop (d.q.getD p []) m
+  let d1 := { d with q := d.q.setIfInBounds p left }
+  let d2 := got.foldl (fun dd t => setT dd t { getT dd t with st := 2 }) d1
+  let evs := got.map fun t =>
+    match (d.a.thr t).unit with
+    | .user u =>
+      let chk := if p == 4 && unitThread d.a (.user u) != some t then "!lookup-mismatch" else ""
+      s!" | pop p{p} u{slotOf u}" ++ chk
+    | _ => ""
+  let tailEv := if !isBuiltinPool p && calls > got.length then s!" | pop p{p} none" else ""
+  (d2, got, String.join evs ++ tailEv)
 
 /-- `ABT_pool_push_threads(pool, ts, n)` into a built-in pool: every thread is re-associated first (the unit a
 user-defined pool made for it is released), then all are pushed in order -/
